@@ -33,6 +33,10 @@ def vid(v):
 PREDS = {}
 
 
+def _has_dep(d):
+    return d["cls"] not in ("static", "Union", "Intersection") or any(_has_dep(m) for m in d.get("members", []))
+
+
 def describe_type(t):
     """Structural description of an annotation as the dispatcher sees it."""
     if isinstance(t, MetaMC):
@@ -129,6 +133,11 @@ def families(tier):
     fam.append(([[L(0), int], [int, L(0)]], [(int, int)]))
     fam.append(([[L(0), L(7)], [L(1), int], [L(2), int], [L(3), int]], [(int, int)]))
     fam.append(([[Dependent[int, positive], str], [int, Regexp["^a"]]], [(int, str)]))
+    # a two-condition method in a rank of single-condition Literal methods large enough for the lookup-table path
+    fam.append(([[L(0), L(7), object], [L(1), object, int], [L(2), object, int], [L(3), object, int], [L(4), object, int], [str, int, int]], [(int, int, int)]))
+    # value types nested two levels deep (no value type at depth 1)
+    fam.append(([[bytes | (StartsWith["a"] & EndsWith["b"])]], [(str,), (bytes,)]))
+    fam.append(([[(str & Regexp["^a"]) | bytes]], [(str,), (bytes,)]))
     if tier == "thorough":
         fam.append(([[L(i)] for i in range(1, 8)], [(int,)]))
         fam.append(([[L(0), L(1), L(2)], [L(1), L(0), int]], [(int, int, int)]))
@@ -171,7 +180,11 @@ def main():
                 instances.append(dict(family=fi, probe=[c.__name__ for c in probe], error=f"{type(e).__name__}: {str(e)[:100]}"))
                 continue
             if getattr(fn, "__code__", None) is None or not fn.__code__.co_filename.startswith("<ovld"):
-                continue  # no dependent rank at the top for this probe
+                # no generated dispatcher at the top rank for this probe: fine unless the selected method's declared
+                # types contain a value-dependent type at any depth (structural test independent of is_dependent)
+                if fn in registered and any(_has_dep(t) for t in decl[registered.index(fn)]):
+                    instances.append(dict(family=fi, annotations=[[repr(a) for a in anns] for anns in handlers_ann], probe=[c.__name__ for c in probe], error="a method whose annotation contains a value-dependent type is stored without a generated value check", missing_dispatcher=True))
+                continue
             lines = linecache.cache.get(fn.__code__.co_filename)
             text = "".join(lines[2]) if lines else None
             instances.append(
